@@ -319,6 +319,15 @@ func genC19(tier string, r *rng) {
 				hs[k].forceOffset = []int{0, 1, 7, 100, 4000}[r.intn(5)]
 			}
 		}
+		// signature headers as rpm 3.x wrote them (no region tag 62 at all), and with the region tag not in first place
+		switch i % 7 {
+		case 5:
+			sig = sig[1:]
+		case 6:
+			if len(sig) > 1 {
+				sig[0], sig[1] = sig[1], sig[0]
+			}
+		}
 		data := rpmBytes(major, sig, main)
 		args := append([]string{hx(data), "D"}, rpmRecord(data)...)
 		if wellFormed {
